@@ -182,9 +182,15 @@ class Shadow:
                 if k != e[1]:
                     self.tags.add("re-keyed-through-inheritance")
                 e[1] = k
+        lock = getattr(self.r, "cur_acq", None)
+        chain = lock is not None and lock._owning is not None and lock._owning() is not task
+        if chain:
+            self.tags.add("re-evaluated-through-chain")
         for h in self.pinned:
             if ext.default.task_from_handle(h) is task:
                 self.tags.add("positional-entry-re-evaluated")
+                if chain:
+                    self.tags.add("positional-entry-re-evaluated-through-chain")
 
     def describe(self, handle):
         for h in self.pinned:
@@ -578,20 +584,26 @@ class RealRunner:
             fut.set_result(None)
             return "w1"
         if o == "aq":
-            if self.holding.get(sid) or op[1] >= len(self.locks):
+            held = self.holding.setdefault(sid, [])
+            # harness discipline: locks are taken in increasing order (no deadlock), never twice
+            if any(h >= op[1] for h in held) or op[1] >= len(self.locks):
                 return "nop"
-            self.holding[sid] = [op[1]]
+            held.append(op[1])
+            if len(held) > 1:
+                self.tags.add("nested-acquire")
+            self.cur_acq = self.locks[op[1]]
             try:
                 await self.locks[op[1]].acquire()
             except BaseException:
-                self.holding[sid] = []
+                held.remove(op[1])
                 raise
             return "ok"
         if o == "rl":
-            if self.holding.get(sid) != [op[1]]:
+            held = self.holding.setdefault(sid, [])
+            if op[1] not in held:
                 return "nop"
             self.locks[op[1]].release()
-            self.holding[sid] = []
+            held.remove(op[1])
             return "ok"
         if o == "it":
             return "[" + ",".join(self.label(h) for h in ext.get_ready_queue()) + "]"
@@ -812,7 +824,7 @@ def gen_program(rng, flavour="c08", n_tasks=None, max_ops=8, long=False):
     n = n_tasks or rng.randint(2, 6)
     prio_flavour = flavour in ("c10", "c10eq")
     specs = PRI_SPECS if flavour == "c10" else ZERO_SPECS
-    nlocks = rng.randint(1, 2) if prio_flavour and rng.random() < 0.7 else 0
+    nlocks = rng.randint(1, 3) if prio_flavour and rng.random() < 0.7 else 0
     tasks = []
     label = [100]
 
@@ -884,19 +896,19 @@ def gen_program(rng, flavour="c08", n_tasks=None, max_ops=8, long=False):
         k = rng.randint(20, 45) if long else rng.randint(1, max_ops)
         ops = [gen_op(sid) for _ in range(k)]
         if nlocks:
-            # give lock sections a shape: acquire ... (work) ... release
-            out, held = [], None
+            # give lock sections a shape: acquire ... (work) ... release; nested sections take
+            # the locks in increasing order (the interpreters answer "nop" otherwise)
+            out, held = [], []
             for op in ops:
                 if op[0] == "aq":
-                    if held is not None:
-                        out.append(["rl", held])
-                    held = op[1]
+                    while held and held[-1] >= op[1]:
+                        out.append(["rl", held.pop()])
+                    held.append(op[1])
                 out.append(op)
-                if held is not None and rng.random() < 0.3:
-                    out.append(["rl", held])
-                    held = None
-            if held is not None:
-                out.append(["rl", held])
+                if held and rng.random() < 0.25:
+                    out.append(["rl", held.pop(rng.randrange(len(held)))])
+            while held:
+                out.append(["rl", held.pop()])
             ops = out
         kind = "plain" if rng.random() < (0.25 if prio_flavour else 0.4) else "prio"
         tasks.append({"kind": kind, "pri": rng.choice(specs), "ops": ops})
@@ -937,6 +949,54 @@ def gen_contention(rng):
     init = [["t", 0]] + [["t", 2 + i] for i in range(len(others))]
     rng.shuffle(init)
     return {"tasks": tasks, "init": init, "locks": 1}
+
+
+def gen_chain(rng):
+    """positional scheduling combined with inheritance *through a chain* of 2-3 locks (fixed lock
+    order): the owner O of the last lock is queued positionally (it is the caller of
+    create_task_descend / sleep_insert, or the target of a task_switch) while tasks further down
+    the chain start waiting, so that O's effective priority is re-evaluated through
+    W1 -> lock -> ... -> O before it runs; other tasks of assorted priorities are runnable meanwhile."""
+    depth = rng.choice([2, 2, 3])                  # number of locks in the chain
+    top = depth - 1
+    urgent = ["i:-10", "e:HIGH", "f:-1.0", "i:-1"]
+    lazy = ["i:1", "i:10", "e:LOW", "f:0.5", "i:0"]
+    tasks = []
+    # script ids: 0 = O (owner of the top lock), 1..depth-1 = links W_k (hold lock k-1, wait for lock k),
+    # depth = X (the urgent task that waits on lock 0), then bystanders
+    def how_positional(target):
+        r = rng.random()
+        if r < 0.45:
+            return [["de", target]]
+        if r < 0.7:
+            return [["cr8", target], ["sw", target, rng.choice([1, 1, 2])]]
+        return [["cr8", target], ["si", rng.choice([1, 2])]]
+    o_ops = [["aq", top]]
+    for k in range(top, 0, -1):                    # start the links, highest first: W_k holds k-1, waits k
+        o_ops += how_positional(k)
+        if rng.random() < 0.3:
+            o_ops.append(rng.choice([["sleep0"], ["cs", 300 + k], ["it"]]))
+    o_ops += how_positional(depth)                 # X arrives while O is positional again
+    o_ops += [rng.choice([["it"], ["cs", 320], ["sleep0"]]), ["rl", top], ["sleep0"]]
+    tasks.append({"kind": "prio", "pri": rng.choice(lazy), "ops": o_ops})
+    for k in range(1, depth):
+        ops = [["aq", k - 1]] + ([["sleep0"]] if rng.random() < 0.2 else []) + [["aq", k]] + \
+              [rng.choice([["sleep0"], ["cs", 330 + k]]), ["rl", k], ["rl", k - 1]]
+        tasks.append({"kind": rng.choice(["prio", "prio", "prio", "plain"]), "pri": rng.choice(lazy + urgent), "ops": ops})
+    tasks.append({"kind": rng.choice(["prio", "prio", "prio", "plain"]), "pri": rng.choice(urgent),
+                  "ops": [["aq", 0], ["cs", 340], ["rl", 0]]})
+    nb = rng.randint(1, 3)
+    for i in range(nb):
+        ops = [rng.choice([["sleep0"], ["si", rng.randint(0, 2)], ["cs", 350 + i], ["sleep0"], ["cp", rng.randint(0, 1), 360 + i]])
+               for _ in range(rng.randint(2, 6))]
+        if i == 0 and rng.random() < 0.5:
+            # a competitor for the top lock: who gets it at release depends on the link's re-keyed
+            # entry in the lock's waiter queue (PriorityLock.propagate_priority)
+            ops = [["sleep0"]] * rng.randint(0, 2) + [["aq", top]] + ops[:2] + [["rl", top]]
+        tasks.append({"kind": rng.choice(["prio", "prio", "plain"]), "pri": rng.choice(urgent + lazy + PRI_SPECS), "ops": ops})
+    init = [["t", 0]] + [["t", depth + 1 + i] for i in range(nb)]
+    rng.shuffle(init)
+    return {"tasks": tasks, "init": init, "locks": depth}
 
 
 def zeroed(prog):
